@@ -128,9 +128,11 @@ AccumulateOver(dd, U, pops, proj) ==
                     ELSE IF P = 1 THEN RSum(V[1][ix[1] + 1])
                     ELSE RDot(pp(ix, P - 1), V[P][ix[P] + 1])
     IN  Mk(ShapeOf(proj), term, LAMBDA ix : FALSE, FALSE, Labels(pops))
+\* (Force: evaluate the entries once; TLC would otherwise re-evaluate an entry at every use)
+Force(s) == [s EXCEPT !.d = TLCEval(s.d), !.m = TLCEval(s.m)]
 SpectrumOfKeys(dd, K, pops, proj, pol) ==
-    LET unf == AccumulateOver(dd, K \cap UsableKeys(dd, pops, proj, pol), pops, proj)
-    IN  IF pol THEN unf ELSE Fold(unf)
+    LET unf == Force(AccumulateOver(dd, K \cap UsableKeys(dd, pops, proj, pol), pops, proj))
+    IN  IF pol THEN unf ELSE Force(Fold(unf))
 SpectrumOf(dd, pops, proj, pol) == SpectrumOfKeys(dd, DOMAIN dd, pops, proj, pol)
 
 \* entry-wise sum of spectra of one shape (a sequence of spectra; masks are united)
@@ -156,7 +158,7 @@ Contiguous(q, where) == \A j \in 1..Len(q) : \A x, z \in q[j] : \A y \in DOMAIN 
                            (where[y].chrom = where[x].chrom /\ where[x].pos < where[y].pos /\ where[y].pos < where[z].pos) => y \in q[j]
 WhereOfFile(file, idx) == [k \in {Key(file.lines[i]) : i \in idx} |->
                              LET i == CHOOSE i \in idx : Key(file.lines[i]) = k IN [chrom |-> file.lines[i].chrom, pos |-> file.lines[i].pos]]
-ChunkSpectra(dd, q, pops, proj, pol) == [j \in 1..Len(q) |-> SpectrumOfKeys(dd, q[j], pops, proj, pol)]
+ChunkSpectra(dd, q, pops, proj, pol) == TLCEval([j \in 1..Len(q) |-> SpectrumOfKeys(dd, q[j], pops, proj, pol)])
 \* a bootstrap replicate: draw[i] = index of the i-th drawn chunk
 BootSum(cs, draw) == AddSpectra([i \in 1..Len(draw) |-> cs[draw[i]]], cs[1])
 
